@@ -388,9 +388,60 @@ def _lean_bool(b):
     return 'true' if b else 'false'
 
 
+def extract_thin_structure(repo: Path):
+    """(Round 4, C15) the control structure around the eight passes: the statements of `thin.py: thin` (normalised by
+    `ast.unparse`; docstring and imports dropped) — bounding-box crop, zero frame of width 1, native call, paste back —
+    and the loop skeleton of `py_thin` in `_thin.cpp`: the `while` condition, the reset of `any_change`, the `for` over the
+    elements with `fast_hitmiss(array, elems[i], buffer)` and the element count of the clearing loop."""
+    tree = ast.parse((repo / 'mahotas' / 'thin.py').read_text())
+    fn = next((n for n in tree.body if isinstance(n, ast.FunctionDef) and n.name == 'thin'), None)
+    if fn is None:
+        raise TranslationError('thin.py: thin not found')
+    body = []
+    for st in fn.body:
+        if isinstance(st, ast.Expr) and isinstance(st.value, ast.Constant) and isinstance(st.value.value, str):
+            continue
+        if isinstance(st, (ast.Import, ast.ImportFrom)):
+            continue
+        body.append(ast.unparse(st).replace('"', "'"))
+    params = [a.arg for a in fn.args.args] + ['=' + ast.unparse(d) for d in fn.args.defaults]
+    src = (repo / 'mahotas' / '_thin.cpp').read_text()
+    src = re.sub(r'//[^\n]*', '', src)
+    m = re.search(r'PyObject\*\s*py_thin\b(.*?)\n\}\n', src, flags=re.S)
+    if not m:
+        raise TranslationError('_thin.cpp: py_thin not found')
+    f = m.group(1)
+    w = re.search(r'while\s*\((.*?)\)\s*\{', f, flags=re.S)
+    if not w:
+        raise TranslationError('_thin.cpp: the while loop of py_thin not found')
+    cond = re.sub(r'\s+', ' ', w.group(1)).strip()
+    rest = f[w.end():]
+    skel = []
+    for pat, name in [(r'any_change\s*=\s*false\s*;', 'any_change = false'),
+                      (r'for\s*\(\s*int\s+i\s*=\s*0\s*;\s*i\s*!=\s*Nr_Elements\s*;\s*\+\+i\s*\)', 'for i in [0, Nr_Elements)'),
+                      (r'fast_hitmiss\(array,\s*elems\[i\],\s*buffer\)\s*;', 'fast_hitmiss(array, elems[i], buffer)'),
+                      (r'for\s*\(\s*int\s+j\s*=\s*0\s*;\s*j\s*!=\s*N\s*;\s*\+\+j\s*\)', 'for j in [0, N)'),
+                      (r'if\s*\(\*pb\s*&&\s*\*pa\)', 'if (*pb && *pa)')]:
+        k = re.search(pat, rest)
+        if not k:
+            raise TranslationError('_thin.cpp: loop skeleton of py_thin no longer matches: ' + name)
+        skel.append(name)
+        rest = rest[k.end():]
+    pre = f[:w.start()]
+    init = []
+    for pat, name in [(r'const\s+npy_int\s+N\s*=\s*PyArray_SIZE\(array\)\s*;', 'N = PyArray_SIZE(array)'),
+                      (r'bool\s+any_change\s*=\s*true\s*;', 'any_change = true'),
+                      (r'int\s+n\s*=\s*0\s*;', 'n = 0')]:
+        if not re.search(pat, pre):
+            raise TranslationError('_thin.cpp: initialisation of the loop of py_thin no longer matches: ' + name)
+        init.append(name)
+    return dict(params=params, body=body, cond=cond, skel=skel, init=init)
+
+
 def c15_block(repo: Path):
     th = extract_thin(repo)
     eu = extract_euler(repo)
+    ts = extract_thin_structure(repo)
     s = ['/-! ### C15: thinning templates (`_thin.cpp`) and Euler bit-quad tables (`euler.py`) -/', '',
          '/-- `boolvals` of `_thin.cpp` -/',
          'def thinBoolvals : List Bool := [' + ', '.join(_lean_bool(b) for b in th['boolvals']) + ']']
@@ -413,7 +464,15 @@ def c15_block(repo: Path):
           f'def eulerDen : Nat := {eu["den"]}',
           '/-- `_powers` (row major): weight of quad pixel (i, j) in the table index -/',
           'def eulerPowers : List (List Nat) := [' + ', '.join(lean_list(r) for r in eu['powers']) + ']', '']
-    return s, dict(thin_elems=len(th['elems']), euler_tables=2)
+    qs = lambda x: '"' + x.replace('\\', '\\\\').replace('"', '\\"') + '"'
+    s += ['/-- (round 4) `thin.py: thin`: parameters with defaults, and the statements of the body (`ast.unparse`) -/',
+          'def thinPyParams : List String := [' + ', '.join(qs(x) for x in ts['params']) + ']',
+          'def thinPyBody : List String := [' + ', '.join(qs(x) for x in ts['body']) + ']',
+          '/-- (round 4) `_thin.cpp: py_thin`: initialisation before the loop, the `while` condition, the skeleton of its body in order -/',
+          'def thinLoopInit : List String := [' + ', '.join(qs(x) for x in ts['init']) + ']',
+          'def thinLoopCond : String := ' + qs(ts['cond']),
+          'def thinLoopSkeleton : List String := [' + ', '.join(qs(x) for x in ts['skel']) + ']', '']
+    return s, dict(thin_elems=len(th['elems']), euler_tables=2, thin_statements=len(ts['body']))
 
 # ---------------------------------------------------------------------------------------------
 # C17: Daubechies coefficient tables of _convolve.cpp
